@@ -374,18 +374,40 @@ func UDPPeerOf(fd int) *UDPPeer {
 	return &UDPPeer{d: f.dg}
 }
 
-// Send delivers one datagram from the given remote address.
+// Send delivers one datagram from the remote address 10.0.0.1:fromPort.
 func (u *UDPPeer) Send(fromPort int, payload []byte) {
+	u.SendFrom(&SockaddrInet4{Addr: [4]byte{10, 0, 0, 1}, Port: fromPort}, payload)
+}
+
+// SendFrom delivers one datagram from the given remote address (IPv4 or IPv6, any zone).
+func (u *UDPPeer) SendFrom(from Sockaddr, payload []byte) {
 	vsched.Point()
 	d := u.d
 	if d.closed {
 		vsched.Record(&d.o, hPeer, true, 7<<40)
 		return
 	}
-	d.q = append(d.q, dgram{from: &SockaddrInet4{Addr: [4]byte{10, 0, 0, 1}, Port: fromPort}, payload: append([]byte(nil), payload...)})
+	var h uint64
+	switch a := from.(type) {
+	case *SockaddrInet4:
+		a2 := *a
+		from = &a2
+		h = uint64(a.Port)
+		for _, b := range a.Addr {
+			h = h*131 + uint64(b)
+		}
+	case *SockaddrInet6:
+		a2 := *a
+		from = &a2
+		h = uint64(a.Port)*31 + uint64(a.ZoneId) + 6
+		for _, b := range a.Addr {
+			h = h*131 + uint64(b)
+		}
+	}
+	d.q = append(d.q, dgram{from: from, payload: append([]byte(nil), payload...)})
 	objs := d.f.wake(EPOLLIN, nil)
-	record(hPeer, 8<<40|uint64(fromPort), &d.o, objs)
-	vsched.Logf("udp datagram from :%d len=%d", fromPort, len(payload))
+	record(hPeer, 8<<40|(h&0xffffffffff), &d.o, objs)
+	vsched.Logf("udp datagram from %v len=%d", from, len(payload))
 }
 
 // Sent lists what the code under test sent through the socket.
